@@ -119,7 +119,10 @@ Inductive case :=
 | CP2StartK (id : nat) (rank : nat) (kind : p2kind) (nn : option (list nat)) (init : p2init Z) (proj_args proj_ans : list zmat)
             (observed : res (list Z * list zmat * list zmat))
 | CP2Start (id : nat) (rank : nat) (builtin : bool) (nn : option (list nat)) (init : p2init Z) (Q Rm : zmat)
-           (observed : res (list Z * list zmat * list zmat)).
+           (observed : res (list Z * list zmat * list zmat))
+(* tucker(fixed_factors=<request as a list / tuple / ndarray, or None>): was the fixed-factor branch entered (observed through the modes
+   handed to a recording partial_tucker / the all-fixed return), or did the call raise in front of it *)
+| CGate (id : nat) (c : container) (req : option (list Z)) (observed : res bool).
 
 Definition agree (c : case) : bool :=
   match c with
@@ -158,6 +161,7 @@ Definition agree (c : case) : bool :=
         (match p2_start_kind 1%Z (fun B => (B, B)) rank (map (map (Z.max 0))) (fun fs => if zmats_eqb fs proj_args then proj_ans else [])
                              kind nn init with
          | Ok s => Ok (p2w s, p2f s, p2P s) | Err => Err end) observed
+  | CGate _ c req observed => res_eqb Bool.eqb (tucker_gate c req) observed
   | CP2Start _ rank builtin nn init Q Rm observed =>
       res_eqb p2_state_eqb
         (match p2_start 1%Z (fun _ => (Q, Rm)) rank (map (map (Z.max 0))) builtin nn init with
@@ -168,6 +172,6 @@ Definition ident (c : case) : nat :=
   match c with
   | CInit i _ _ _ _ _ | CDense i _ _ _ _ | CTrace i _ _ _ _ _ _ _ _ _ _ | CTuckerTape i _ _ _ _ _ _ _ _ _ | CTuckerLists i _ _ _
   | CTuckerZero i _ _ _ _ | CTuckerDense i _ _ _ | CP2Dense i _ _ _ _ _ _ _ _ | CNtdInit i _ _ _ _
-  | CP2Init i _ _ _ _ _ _ _ _ | CHalsInit i _ _ _ _ _ _ _ | CP2Start i _ _ _ _ _ _ _ | CTraceZ i _ _ _ _ _ _ _ _ | CP2StartK i _ _ _ _ _ _ _ => i
+  | CP2Init i _ _ _ _ _ _ _ _ | CHalsInit i _ _ _ _ _ _ _ | CP2Start i _ _ _ _ _ _ _ | CTraceZ i _ _ _ _ _ _ _ _ | CP2StartK i _ _ _ _ _ _ _ | CGate i _ _ _ => i
   end.
 Definition failing := failing_ids agree ident.
